@@ -69,7 +69,7 @@ INT = Leaf('INTEGER')
 
 def bounds(tier):
     return {'tier': tier,
-            'layers': ('L0,L0c,L1(W2,K2),L2,families; 2 environments (C06 terms: 3, incl. EXTENSIBILITY IMPLIED)' if tier == 'quick'
+            'layers': ('L0,L0c,L2,families under EXPLICIT and AUTOMATIC; L1(W2,K2) EXPLICIT, L1(W2,K1) AUTOMATIC (C06 terms: 3 environments, incl. EXTENSIBILITY IMPLIED)' if tier == 'quick'
                        else 'L0,L0c,L1(W3,K2),L2,families; 5 environments') + '; C06 extra terms',
             'value_deviation_k': 2, 'codecs': [CODEC], 'numeric_enums': [False, True],
             'extra_additions_counts': list(ADD_COUNTS_THOROUGH if tier == 'thorough' else ADD_COUNTS_QUICK),
